@@ -377,7 +377,17 @@ pub fn gen_for(which: u32, seed: u64, count: usize, thorough: bool) -> String {
         }
         let f = forest(&mut r, n, t, start, thorough);
         let total = f.nodes as u64 * 2;
-        if which == 11 || (which == 10 && r.chance(1, 6)) {
+        // C11: one session in six has NO builder limit (or an explicit RuntimeLimit::None / And(None, x)) and is
+        // cut by the temporary limits of the stepping calls instead
+        let unlimited = which == 11 && r.chance(1, 6);
+        if unlimited {
+            match r.below(3) {
+                0 => {}
+                1 => writeln!(out, "builder limit none").unwrap(),
+                _ => writeln!(out, "builder limit and(none,ec:{})", r.below(total + 2)).unwrap(),
+            }
+        }
+        if (which == 11 && !unlimited) || (which == 10 && r.chance(1, 6)) {
             for _ in 0..r.range(1, 3) {
                 match r.below(3) {
                     0 => writeln!(out, "builder max_itr {}", r.below(total + 2)).unwrap(),
@@ -421,6 +431,15 @@ pub fn gen_for(which: u32, seed: u64, count: usize, thorough: bool) -> String {
                         let time = if r.chance(1, 5) { base.saturating_sub(r.range(1, 3)) } else { base + r.below(3) };
                         writeln!(out, "add {} {}", time, r.below(f.nodes as u64)).unwrap();
                     }
+                }
+            }
+        }
+        if unlimited {
+            for _ in 0..r.range(1, 3) {
+                if r.chance(1, 2) {
+                    writeln!(out, "stepn {}", r.below(4)).unwrap();
+                } else {
+                    writeln!(out, "until {}", start + r.below(f.horizon - start + 2)).unwrap();
                 }
             }
         }
